@@ -354,7 +354,11 @@ class _PackedBoolArray:
                     if temp_pba._start_index != value._start_index or \
                        temp_pba._stop_index != value._stop_index:
                         raise ValueError("Value _PackedBoolArray must be aligned with slice.")
-                    _value = value
+                    if np.shares_memory(temp_pba._data, value._data):
+                        # Overlapping views of one buffer: read the value before writing.
+                        _value = value.copy()
+                    else:
+                        _value = value
 
                 value_first_unpacked, value_mid_data, value_last_unpacked = \
                     _value._extract_first_middle_last(mask_extra=False)
@@ -611,6 +615,10 @@ class _PackedBoolArray:
         other : `_PackedBoolArray`
             _PackedBoolArray; must be aligned.
         """
+        if np.shares_memory(self._data, other._data):
+            # Overlapping views of one buffer: read the operand before writing.
+            other = other.copy()
+
         first_unpacked, mid_data, last_unpacked = self._extract_first_middle_last(mask_extra=False)
         o_first_unpacked, o_mid_data, o_last_unpacked = other._extract_first_middle_last(mask_extra=False)
 
